@@ -150,12 +150,32 @@ class Verifier(Engine):
             raise CheckerError("precondition of %s is unsatisfiable or undecided (vacuity check)" % c.func)
         fx.handler_exc = []
         fx.used = set()
+        body = fsrc.node.body
+        if c.opts.get("block"):
+            # block contract: only the statement with the given header is verified, from an arbitrary pre-state that
+            # satisfies `requires`; every name in `vars` is an arbitrary value (everything else of the function is dropped)
+            found = [n for n in ast.walk(fsrc.node) if isinstance(n, ast.stmt) and stmt_header(n) == c.opts["block"]]
+            if len(found) != 1:
+                raise CheckerError("block contract: %d statements match %r in %s" % (len(found), c.opts["block"], c.func))
+            body = [found[0]]
+            rec["block"] = c.opts["block"]
+            rec["dropped"] = "everything outside the block (treated as an arbitrary pre-state satisfying the block's requires)"
+            for vn, vk in c.opts.get("vars", {}).items():
+                if vn not in st.env:
+                    t = z3.Const("v_" + vn, KIND_SORT[vk])
+                    st.env[vn] = T(vk, t)
+                    entry.env[vn] = T(vk, t)
+                    if vk == "V":
+                        st.assume(z3.Implies(is_ref(t), z3.And(V.rv(t) >= 0, V.rv(t) < h.alloc)))
+            for text, f in self.spec_conj(c.opts.get("block_requires", []), st, None, fx):
+                st.assume(f)
+            entry.pc = list(st.pc)
         if c.opts.get("value_mode"):
             from .ex import FRONT
             st.assume(z3.And(FRONT >= 0, FRONT <= h.alloc))   # FRONT: entry frontier of the outermost value-mode call
             entry.pc = list(st.pc)
             self.vm_checkpoint(st)
-        outs = self.run_block(fsrc.node.body, st, fx)
+        outs = self.run_block(body, st, fx)
         for u in list(c.uses) + list(c.opts.get("hints", [])):
             if u["after"] not in fx.used:
                 raise CheckerError("stale lemma use: no statement %r in %s" % (u["after"], c.func))
@@ -466,6 +486,40 @@ class Verifier(Engine):
                 res.append((NORMAL, None, s2))
         return res
 
+    # ------------------------------------------------------------------ with
+    def st_With(self, s, st, fx):
+        """`with cm() as x:` for context managers that do not swallow exceptions (declared `opaque(..., context_manager=True)`
+        or the built-in open): __enter__ yields a fresh object (or raises what the callee may raise), the body runs, every
+        outcome of the body propagates unchanged (A-WITH: __exit__ neither raises nor suppresses)."""
+        cur = [st]
+        outs = []
+        for item in s.items:
+            nxt = []
+            for state in cur:
+                ec = self.new_ec(state, fx)
+                ce = item.context_expr
+                if isinstance(ce, ast.Call) and isinstance(ce.func, ast.Name) and ce.func.id == "open" and "open" not in state.env:
+                    for a in ce.args:
+                        self.ev(a, ec)
+                    flag = fresh("open_raises", BoolS)
+                    ec.may_raise_exc(flag, Exc(cid("OSError"), None, s.lineno, "open() failed"))
+                    r = self.new_ref(ec, "object")
+                    val = tV(V.ref(r))
+                else:
+                    val = self.ev(ce, ec)
+                self.assumptions.add("A-WITH: context managers' __exit__ neither raises nor suppresses exceptions")
+                if item.optional_vars is not None:
+                    self.assign_to(item.optional_vars, val, ec, s.lineno)
+                o2, state = self.finish(ec, state, fx, s.lineno)
+                outs += o2
+                nxt.append(state)
+            cur = nxt
+        for state in cur:
+            outs += self.run_block(s.body, state, fx)
+        return outs
+
+    st_AsyncWith = st_With
+
     # ------------------------------------------------------------------ try
     def st_Try(self, s, st, fx):
         outs = self.run_block(s.body, st, fx)
@@ -504,12 +558,15 @@ class Verifier(Engine):
             if not z3.is_false(m) and self.feasible(s_in):
                 if h.name:
                     if exc.val is None:
+                        # the exception object: a fresh object of the raised class (allocated per handler path: the
+                        # facts about it must live in the path condition of the state that enters the handler)
                         r = fresh("exc", IntS)
                         s_in.assume(r == s_in.heap.alloc)
                         s_in.heap.alloc = r + 1
                         s_in.assume(typ(r) == exc.cls)
-                        exc.val = V.ref(r)
-                    s_in.env[h.name] = tV(exc.val)
+                        s_in.env[h.name] = tV(V.ref(r))
+                    else:
+                        s_in.env[h.name] = tV(exc.val)
                 fx.handler_exc.append(exc)
                 res += self.run_block(h.body, s_in, fx)
                 fx.handler_exc.pop()
@@ -844,7 +901,9 @@ def stmt_header(s):
         return ("if " if isinstance(s, ast.If) else "while ") + ast.unparse(s.test)
     if isinstance(s, (ast.For, ast.AsyncFor)):
         return source.loop_header(s)
-    if isinstance(s, (ast.Try, ast.With, ast.AsyncWith, ast.FunctionDef, ast.AsyncFunctionDef, ast.ClassDef)):
+    if isinstance(s, (ast.With, ast.AsyncWith)):
+        return "with " + ", ".join(ast.unparse(i) for i in s.items)
+    if isinstance(s, (ast.Try, ast.FunctionDef, ast.AsyncFunctionDef, ast.ClassDef)):
         return type(s).__name__
     return ast.unparse(s)
 
